@@ -106,6 +106,7 @@ class ResetInterp:
     def __init__(self, index: RepoIndex):
         self.index = index
         self.funcs = index.registry('reset', 8)
+        self._bodies: Dict[int, List[ast.stmt]] = {}
 
     # ------------------------------------------------------------ values
     def aff(self, e: ast.AST, cx: Ctx) -> Optional[Aff]:
@@ -160,11 +161,31 @@ class ResetInterp:
                     return ('selem', v[1], e.slice.value)
         if src(e).endswith('.agent.position') and cx.agent is not None:
             return cx.agent[0]
+        if isinstance(e, ast.Call) and src(e.func) == 'choice' and len(e.args) == 2:
+            base = self.poslist(e.args[1], cx)
+            if base is not None:
+                return ('elem', base)
         if isinstance(e, ast.Call):
             v = self.helper_value(e, cx)
             if isinstance(v, tuple) and v[0] in ('cell', 'elem', 'selem'):
                 return v
         return None
+
+    def body_of(self, f: Func) -> List[ast.stmt]:
+        """the function's statements in normal form: module helpers inlined, keyword
+        spellings canonical, naming conveniences undone (normalise.simplify_locals)"""
+        key = id(f.node)
+        hit = self._bodies.get(key)
+        if hit is None:
+            from .normalise import simplify_locals
+            from .view import view
+            node = simplify_locals(view(self.index, f)[0])
+            b = node.body
+            if b and isinstance(b[0], ast.Expr) and isinstance(b[0].value, ast.Constant) \
+                    and isinstance(b[0].value.value, str):
+                b = b[1:]
+            hit = self._bodies[key] = b
+        return hit
 
     def helper_value(self, call: ast.Call, cx: Ctx, depth: int = 2):
         """inline a call of a non-registered module-level helper of reset_functions.py and
@@ -315,7 +336,7 @@ class ResetInterp:
             cx.order = ['h', 'w']
         cx.flags = dict(flags)
         self._fname = f.name
-        out = self.block(f.body(), cx, f)
+        out = self.block(self.body_of(f), cx, f)
         return out
 
     def block(self, stmts: List[ast.stmt], cx: Ctx, f: Func) -> List[Ctx]:
@@ -394,6 +415,11 @@ class ResetInterp:
                             and cx.env[a.id][0] == 'agentobj':
                         _, pos, t, text, line = cx.env[a.id]
                         cx.agent = (pos, t, text, line)
+                    elif isinstance(a, ast.Call) and src(a.func) == 'Agent':
+                        p = self.position(a.args[0], cx) if a.args else None
+                        cx.agent = (p, cx.t, src(a.args[0]) if a.args else '', s.lineno)
+                        if len(a.args) > 2:
+                            cx.agent_holds = src(a.args[2])
             cx.returned = True
             return [cx]
         if isinstance(s, (ast.Raise,)):
@@ -455,8 +481,15 @@ class ResetInterp:
                 res += self.block(rest, c3, f)
             return res
         if isinstance(val, ast.Call) and src(val.func) in ('rng.integers',) and \
-                isinstance(tg, ast.Name) and len(val.args) >= 2:
-            lo, hi = self.aff(val.args[0], cx), self.aff(val.args[1], cx)
+                isinstance(tg, ast.Name):
+            ia = list(val.args)
+            kwv = {k.arg: k.value for k in val.keywords}
+            for nm in ('low', 'high')[len(ia):]:
+                if nm in kwv:
+                    ia.append(kwv[nm])
+        if isinstance(val, ast.Call) and src(val.func) in ('rng.integers',) and \
+                isinstance(tg, ast.Name) and len(ia) >= 2:
+            lo, hi = self.aff(ia[0], cx), self.aff(ia[1], cx)
             endpoint = any(k.arg == 'endpoint' and src(k.value) == 'True' for k in val.keywords)
             if lo is not None and hi is not None:
                 cx.env[tg.id] = ('aff', cx.newsym(tg.id, lo, hi if endpoint else hi - 1))
